@@ -10,6 +10,7 @@ import ast
 
 from ..core import Rule, AnalysisError, norm
 from .. import pyfront
+from . import dmdroles
 
 W = "DigitalMetadataWriter"
 R = "DigitalMetadataReader"
@@ -17,9 +18,11 @@ R = "DigitalMetadataReader"
 
 def r1_append_and_refuse(repo=None):
     r = Rule("C12.R1", "metadata files are appended to, never truncated; an existing sample index is refused")
-    m = pyfront.mod("digital_metadata", repo)
-    q = W + "._sample_group_generator"
-    f = m.fn(q)
+    ro = dmdroles.roles(repo)
+    m = ro.m
+    q = ro.gen
+    gv = ro.gen_view
+    f = gv.fn()
     opens = [c for c in pyfront.calls_in(f, ("h5py.File",))]
     if len(opens) != 1:
         raise AnalysisError("%s: expected one h5py.File call, found %d" % (q, len(opens)))
@@ -37,7 +40,7 @@ def r1_append_and_refuse(repo=None):
                     "merged into the stored sample", line=groups[0].lineno if groups else f.lineno)
     else:
         c = groups[0]
-        tr = m.enclosing(c, (ast.Try,))
+        tr = gv.enclosing(c, (ast.Try,))
         ok = False
         if tr is not None:
             for h in tr.handlers:
@@ -49,21 +52,25 @@ def r1_append_and_refuse(repo=None):
             r.ok("%s:%s %s" % (m.rel, c.lineno, q), "create_group inside try; ValueError (name exists) -> raise, nothing yielded")
         else:
             r.violation(m.rel, q, norm(ast.unparse(c)), "a duplicate sample index is not turned into an error", line=c.lineno)
-    w = m.fn(W + "._write")
-    writes = [c for c in ast.walk(w) if isinstance(c, ast.Call) and isinstance(c.func, ast.Attribute)
+    w = ro.write_view.fn()
+    zips = [n for n in ast.walk(w) if isinstance(n, ast.For) and isinstance(n.iter, ast.Call) and pyfront.call_name(n.iter) == "zip"
+            and isinstance(n.target, ast.Tuple)]
+    writes = [c for z in zips for c in ast.walk(z) if isinstance(c, ast.Call) and isinstance(c.func, ast.Attribute)
               and c.func.attr in ("create_dataset", "require_dataset", "__setitem__")]
-    subs = [n for n in ast.walk(w) if isinstance(n, ast.Assign) and isinstance(n.targets[0], ast.Subscript)]
+    gnames = {z.target.elts[0].id for z in zips if isinstance(z.target.elts[0], ast.Name)}
+    subs = [n for z in zips for n in ast.walk(z) if isinstance(n, ast.Assign) and isinstance(n.targets[0], ast.Subscript)
+            and pyfront.dotted(n.targets[0].value) in gnames]
     gvars = set()
     for n in ast.walk(w):
         if isinstance(n, ast.For) and isinstance(n.iter, ast.Call) and pyfront.call_name(n.iter) == "zip" and isinstance(n.target, ast.Tuple) \
                 and n.target.elts and isinstance(n.target.elts[0], ast.Name):
             gvars.add(n.target.elts[0].id)
     if not gvars:
-        raise AnalysisError("%s._write: loop over zip(<sample groups>, <key/value iterators>) not recognised" % W)
+        raise AnalysisError("%s.write: loop over zip(<sample groups>, <key/value iterators>) not recognised" % W)
     if writes and all(c.func.attr == "create_dataset" and pyfront.dotted(c.func.value) in gvars for c in writes) and not subs:
-        r.ok("%s:%s %s._write" % (m.rel, w.lineno, W), "values are written only with create_dataset into the freshly created group")
+        r.ok("%s:%s %s.write" % (m.rel, w.lineno, W), "values are written only with create_dataset into the freshly created group")
     else:
-        r.violation(m.rel, W + "._write", "dataset writes: %s" % [norm(ast.unparse(c))[:40] for c in writes], "values are not "
+        r.violation(m.rel, W + ".write", "dataset writes: %s" % [norm(ast.unparse(c))[:40] for c in writes], "values are not "
                     "written exclusively into the new sample group", line=w.lineno)
     r.guard(3)
     return r
@@ -93,13 +100,17 @@ def _mentions_list_ends(test):
 
 def r2_range_filter(repo=None, rid="C12.R2"):
     r = Rule(rid, "the sample range is applied to every file the range may not cover completely")
-    m = pyfront.mod("digital_metadata", repo)
+    ro = dmdroles.roles(repo)
+    m = ro.m
     q = R + ".read"
-    f = m.fn(q)
-    calls = pyfront.calls_in(f, ("self._add_metadata",))
+    rv = ro.read_view
+    f = rv.fn()
+    calls = pyfront.calls_in(f, ("self." + ro.add_name,))
     if len(calls) < 2:
-        raise AnalysisError("%s: expected 2 _add_metadata calls, found %d" % (q, len(calls)))
-    params = [a.arg for a in m.fn(R + "._add_metadata").args.args]
+        raise AnalysisError("%s: expected 2 calls of the per-file reading method %s, found %d" % (q, ro.add_name, len(calls)))
+    params = list(ro.add_params)
+    if "is_edge" not in params:
+        raise AnalysisError("%s: no `is_edge` parameter" % ro.add)
     pos = params.index("is_edge") - 1
     for c in calls:
         arg = pyfront.kwarg(c, "is_edge", pos)
@@ -110,7 +121,7 @@ def r2_range_filter(repo=None, rid="C12.R2"):
             if arg.value is True:
                 r.ok(site, "range filter always applied")
             else:
-                in_ffill = any(isinstance(a, ast.If) and "ffill" in ast.unparse(a.test) for a in _ancestors(m, c))
+                in_ffill = any(isinstance(a, ast.If) and "ffill" in ast.unparse(a.test) for a in _ancestors(rv, c))
                 r.violation(m.rel, q, "_add_metadata(..., is_edge=%r)%s" % (arg.value, " in the forward-fill search" if in_ffill else ""),
                             "the range filter is switched off for a file that can hold samples outside [sample0, sample1]: "
                             "samples outside the requested range (e.g. later than the start in a forward-fill read) are returned",
@@ -125,7 +136,7 @@ def r2_range_filter(repo=None, rid="C12.R2"):
                     continue
                 if _is_edge_membership(a.value):
                     continue
-                par = m.parents.get(a)
+                par = rv.parents.get(a)
                 if v is False:
                     if isinstance(par, ast.If) and a in par.orelse and _is_edge_membership(par.test):
                         continue
@@ -149,11 +160,11 @@ def r2_range_filter(repo=None, rid="C12.R2"):
         else:
             raise AnalysisError("%s: is_edge argument `%s` not recognised" % (q, norm(ast.unparse(arg))))
     # the filter itself: keys >= sample0 and keys <= sample1 under `if is_edge`
-    am = m.fn(R + "._add_metadata")
+    am = ro.add_view.fn()
     p_lo, p_hi, p_edge = params[pos - 1], params[pos], params[pos + 1]
     ifs = [n for n in ast.walk(am) if isinstance(n, ast.If) and isinstance(n.test, ast.Name) and n.test.id == p_edge]
     if len(ifs) != 1:
-        raise AnalysisError("%s._add_metadata: `if %s:` not found exactly once" % (R, p_edge))
+        raise AnalysisError("%s: `if %s:` not found exactly once" % (ro.add, p_edge))
     cmps = {}
     for n in ast.walk(ifs[0]):
         if isinstance(n, ast.Compare) and len(n.ops) == 1:
@@ -164,14 +175,14 @@ def r2_range_filter(repo=None, rid="C12.R2"):
                 flip = {"LtE": "GtE", "GtE": "LtE", "Lt": "Gt", "Gt": "Lt"}.get(op, op)
                 cmps[l.id] = (rt.id, flip)
     if p_lo not in cmps or p_hi not in cmps:
-        raise AnalysisError("%s._add_metadata: comparisons with %s / %s not found under `if %s`" % (R, p_lo, p_hi, p_edge))
+        raise AnalysisError("%s: comparisons with %s / %s not found under `if %s`" % (ro.add, p_lo, p_hi, p_edge))
     arr = cmps[p_lo][0]
     sel = [n for n in ast.walk(ifs[0]) if isinstance(n, ast.Assign) and isinstance(n.targets[0], ast.Name) and n.targets[0].id == arr
            and isinstance(n.value, ast.Subscript) and pyfront.dotted(n.value.value) == arr]
     if cmps[p_lo] == (arr, "GtE") and cmps[p_hi] == (arr, "LtE") and sel:
-        r.ok("%s:%s %s._add_metadata" % (m.rel, ifs[0].lineno, R), "is_edge selects %s <= idx <= %s (inclusive on both ends)" % (p_lo, p_hi))
+        r.ok("%s:%s %s" % (m.rel, ifs[0].lineno, ro.add), "is_edge selects %s <= idx <= %s (inclusive on both ends)" % (p_lo, p_hi))
     else:
-        r.violation(m.rel, R + "._add_metadata", "range filter: %s %s %s, %s %s %s%s" % (cmps[p_lo][0], cmps[p_lo][1], p_lo, cmps[p_hi][0],
+        r.violation(m.rel, ro.add, "range filter: %s %s %s, %s %s %s%s" % (cmps[p_lo][0], cmps[p_lo][1], p_lo, cmps[p_hi][0],
                     cmps[p_hi][1], p_hi, "" if sel else " (selection not applied)"), "the range filter is not the inclusive "
                     "%s <= idx <= %s: a sample exactly at an end of the requested range is dropped, or samples outside are kept" % (p_lo, p_hi),
                     line=ifs[0].lineno)
@@ -223,10 +234,11 @@ def r3_numeric_key_order(repo=None, rid="C12.R3"):
                             "counts in one file ('999999995' > '1000000005') the first/last key is wrong, so the reported "
                             "bounds are wrong", line=c.lineno)
     # _add_metadata: the array the samples are taken from is made of integers and sorted before the loop
-    am = m.fn(R + "._add_metadata")
-    qa = R + "._add_metadata"
+    ro = dmdroles.roles(repo)
+    am = ro.add_view.fn()
+    qa = ro.add
     loops = [n for n in ast.walk(am) if isinstance(n, ast.For) and isinstance(n.iter, ast.Name) and any(
-        isinstance(c, ast.Call) and pyfront.call_name(c) == "self._populate_data" for c in ast.walk(n))]
+        isinstance(c, ast.Call) and pyfront.call_name(c) == "self." + ro.populate_name for c in ast.walk(n))]
     loops = [l for l in loops if not any(l is not o and any(x is l for x in ast.walk(o)) for o in loops)]
     if len(loops) != 1:
         raise AnalysisError("%s: loop over the sample indices of a file not recognised" % qa)
@@ -289,9 +301,10 @@ def _none_test(test):
 
 def r5_recursive_shape(repo=None):
     r = Rule("C12.R5", "nested values are written and read by the same recursive shape; strings use one encoding")
-    m = pyfront.mod("digital_metadata", repo)
-    ri = m.fn("_recursive_items")
-    rec = [c for c in pyfront.calls_in(ri, ("_recursive_items",))]
+    ro = dmdroles.roles(repo)
+    m = ro.m
+    ri = m.fn(ro.rec_items)
+    rec = [c for c in pyfront.calls_in(ri, (ro.rec_items,))]
     rparams = [a.arg for a in ri.args.args]
     ok = False
     if len(rec) == 1 and len(rec[0].args) >= 2:
@@ -301,56 +314,71 @@ def r5_recursive_shape(repo=None):
             ok = len(defs) == 1 and isinstance(defs[0].value, ast.BinOp) and isinstance(defs[0].value.op, ast.Add) \
                 and isinstance(defs[0].value.left, ast.Name) and defs[0].value.left.id == rparams[1]
     if ok:
-        r.ok("%s:%s _recursive_items" % (m.rel, ri.lineno), "sub-dictionaries are flattened with the prefix name + '/' (HDF5 nested groups)")
+        r.ok("%s:%s %s" % (m.rel, ri.lineno, ro.rec_items), "sub-dictionaries are flattened with the prefix name + '/' (HDF5 nested groups)")
     elif not rec:
-        r.violation(m.rel, "_recursive_items", "no recursion", "nested dictionaries are not written as nested groups", line=ri.lineno)
+        r.violation(m.rel, ro.rec_items, "no recursion", "nested dictionaries are not written as nested groups", line=ri.lineno)
     elif len(rec) == 1 and len(rec[0].args) >= 2:
-        r.violation(m.rel, "_recursive_items", norm(ast.unparse(rec[0]))[:80], "nested dictionaries are not written as nested groups "
+        r.violation(m.rel, ro.rec_items, norm(ast.unparse(rec[0]))[:80], "nested dictionaries are not written as nested groups "
                     "(prefix is not <prefix + key> + '/')", line=rec[0].lineno)
     else:
-        raise AnalysisError("_recursive_items: recursion not recognised")
-    pd = m.fn(R + "._populate_data")
+        raise AnalysisError("%s: recursion not recognised" % ro.rec_items)
+    pd = ro.populate_view.fn()
     pp = [a.arg for a in pd.args.args if a.arg != "self"]
     if len(pp) != 3:
-        raise AnalysisError("%s._populate_data: parameters not recognised" % R)
+        raise AnalysisError("%s: parameters not recognised" % ro.populate)
     top = [s_ for s_ in pd.body if isinstance(s_, ast.If) and _isinstance_test(s_.test, pp[1], ("h5py.Dataset", "h5py.Group"))]
     if len(top) != 1:
-        raise AnalysisError("%s._populate_data: dataset/group dispatch on `%s` not found" % (R, pp[1]))
+        raise AnalysisError("%s: dataset/group dispatch on `%s` not found" % (ro.populate, pp[1]))
     t = top[0]
     sign = _isinstance_test(t.test, pp[1], ("h5py.Dataset", "h5py.Group"))
     if "Group" in ast.unparse(t.test):
         sign = -sign
     group_branch = t.orelse if sign > 0 else t.body
     rec_ok = any(isinstance(s_, ast.For) and norm(ast.unparse(s_.iter)) in ("%s.items()" % pp[1], "six.iteritems(%s)" % pp[1])
-                 and any(pyfront.call_name(c) == "self._populate_data" for c in ast.walk(s_) if isinstance(c, ast.Call))
+                 and any(pyfront.call_name(c) == "self." + ro.populate_name for c in ast.walk(s_) if isinstance(c, ast.Call))
                  for b_ in group_branch for s_ in ast.walk(b_))
     if rec_ok:
-        r.ok("%s:%s %s._populate_data" % (m.rel, pd.lineno, R), "datasets become values, groups are read recursively over their items")
+        r.ok("%s:%s %s" % (m.rel, pd.lineno, ro.populate), "datasets become values, groups are read recursively over their items")
     else:
-        r.violation(m.rel, R + "._populate_data", "group branch: %s" % norm(" ".join(ast.unparse(x) for x in group_branch))[:100],
+        r.violation(m.rel, ro.populate, "group branch: %s" % norm(" ".join(ast.unparse(x) for x in group_branch))[:100],
                     "nested groups are not read back recursively", line=t.lineno)
     decs = [c for c in ast.walk(pd) if isinstance(c, ast.Call) and isinstance(c.func, ast.Attribute) and c.func.attr == "decode"]
     for c in decs:
         enc = pyfront.const(c.args[0]) if c.args else pyfront.const(pyfront.kwarg(c, "encoding")) if c.keywords else None
         if enc is None or str(enc).lower().replace("-", "") == "utf8":
-            r.ok("%s:%s %s._populate_data `%s`" % (m.rel, c.lineno, R, norm(ast.unparse(c))), "bytes decoded as UTF-8, the "
+            r.ok("%s:%s %s `%s`" % (m.rel, c.lineno, ro.populate, norm(ast.unparse(c))), "bytes decoded as UTF-8, the "
                  "encoding h5py stores str values with")
         else:
-            r.violation(m.rel, R + "._populate_data", norm(ast.unparse(c)), "stored strings are decoded as %r but h5py stores str as "
+            r.violation(m.rel, ro.populate, norm(ast.unparse(c)), "stored strings are decoded as %r but h5py stores str as "
                         "UTF-8: a non-ASCII value fails to decode and is returned as raw bytes instead of the written string" % enc,
                         line=c.lineno)
-    w = m.fn(W + "._write")
-    creates = [c for c in ast.walk(w) if isinstance(c, ast.Call) and isinstance(c.func, ast.Attribute) and c.func.attr == "create_dataset"]
+    wv = ro.write_view
+    w = wv.fn()
+    zips = [n for n in ast.walk(w) if isinstance(n, ast.For) and isinstance(n.iter, ast.Call) and pyfront.call_name(n.iter) == "zip"
+            and isinstance(n.target, ast.Tuple)]
+    creates = [c for z in zips for c in ast.walk(z) if isinstance(c, ast.Call) and isinstance(c.func, ast.Attribute)
+               and c.func.attr == "create_dataset"]
     if not creates:
-        raise AnalysisError("%s._write: create_dataset not found" % W)
+        raise AnalysisError("%s.write: create_dataset not found" % W)
     n_ok = 0
     for c in creates:
         data = pyfront.kwarg(c, "data", 1)
+        if isinstance(data, ast.IfExp):
+            var, sg = _none_test(data.test)
+            none_val, other = (data.body, data.orelse) if sg > 0 else (data.orelse, data.body)
+            if var is None:
+                raise AnalysisError("%s.write: `%s` not recognised" % (W, norm(ast.unparse(c))))
+            if pyfront.const(none_val) == "" and isinstance(other, ast.Name) and other.id == var:
+                n_ok += 2
+            else:
+                r.violation(m.rel, W + ".write", norm(ast.unparse(c)), "None values are not stored as the empty string (or other values "
+                            "are not stored as themselves)", line=c.lineno)
+            continue
         if isinstance(data, ast.Name):
             # must be in the not-None branch of a test of that name
             guarded = False
             child = c
-            for anc in _ancestors(m, c):
+            for anc in _ancestors(wv, c):
                 if isinstance(anc, ast.If):
                     var, sg = _none_test(anc.test)
                     if var == data.id:
@@ -361,12 +389,12 @@ def r5_recursive_shape(repo=None):
             if guarded:
                 n_ok += 1
             else:
-                r.violation(m.rel, W + "._write", norm(ast.unparse(c)), "a None value reaches create_dataset(data=None): None values "
+                r.violation(m.rel, W + ".write", norm(ast.unparse(c)), "a None value reaches create_dataset(data=None): None values "
                             "are not stored as the empty string", line=c.lineno)
         elif pyfront.const(data) == "":
             in_none = False
             child = c
-            for anc in _ancestors(m, c):
+            for anc in _ancestors(wv, c):
                 if isinstance(anc, ast.If):
                     var, sg = _none_test(anc.test)
                     if var is not None:
@@ -377,12 +405,12 @@ def r5_recursive_shape(repo=None):
             if in_none:
                 n_ok += 1
             else:
-                r.violation(m.rel, W + "._write", norm(ast.unparse(c)), "the empty string is written for values that are not None",
+                r.violation(m.rel, W + ".write", norm(ast.unparse(c)), "the empty string is written for values that are not None",
                             line=c.lineno)
         else:
-            raise AnalysisError("%s._write: `%s` not recognised" % (W, norm(ast.unparse(c))))
-    if n_ok == len(creates) and n_ok >= 2:
-        r.ok("%s:%s %s._write" % (m.rel, w.lineno, W), "None is written as the empty string, everything else as itself")
+            raise AnalysisError("%s.write: `%s` not recognised" % (W, norm(ast.unparse(c))))
+    if n_ok >= len(creates) and n_ok >= 2:
+        r.ok("%s:%s %s.write" % (m.rel, w.lineno, W), "None is written as the empty string, everything else as itself")
     r.guard(4)
     return r
 
@@ -393,9 +421,10 @@ def r6_list_edges(repo=None, rid="C12.R6"):
     from . import c13
     from .. import pysym
     r = Rule(rid, "the candidate file list starts at the file holding the range start and ends at the file holding its end")
-    m = pyfront.mod("digital_metadata", repo)
-    rf = m.fn(R + "._get_file_list")
-    q = R + "._get_file_list"
+    ro = dmdroles.roles(repo)
+    m = ro.m
+    rf = ro.filelist_view.fn()
+    q = ro.filelist
     params, rloop, forms = c13._reader_forms(m, rf)
     env = pysym.seq_env(rf.body, stop=rloop)
     cad = None
